@@ -396,10 +396,9 @@ class InteractingNetworks(Network):
         :rtype: 2D array [node index, node index]
         :return: the subnetwork's adjacency matrix.
         """
-        #  Create igraph Graph object describing the subgraph
-        subgraph = self.graph.subgraph(node_list)
-        #  Get adjacency matrix
-        return np.array(subgraph.get_adjacency(type=2).data).astype(np.int8)
+        #  Rows and columns in the order of node_list (an igraph subgraph
+        #  would renumber the nodes in ascending order instead)
+        return self.sp_A[node_list, :][:, node_list].toarray().astype(np.int8)
 
     def cross_adjacency(self, node_list1, node_list2):
         """
@@ -481,19 +480,10 @@ class InteractingNetworks(Network):
         :rtype: square numpy array [node_index, node_index]
         :return: link weights submatrix
         """
-        weights = np.zeros((len(node_list), len(node_list)))
-        subgraph = self.graph.subgraph(node_list)
-
-        if self.directed:
-            for e in subgraph.es:
-                weights[e.tuple] = e[attribute_name]
-        #  Symmetrize if subgraph is undirected
-        else:
-            for e in subgraph.es:
-                weights[e.tuple] = e[attribute_name]
-                weights[e.tuple[1], e.tuple[0]] = e[attribute_name]
-
-        return weights
+        #  Rows and columns in the order of node_list (an igraph subgraph
+        #  would renumber the nodes in ascending order instead)
+        W = self.link_attribute(attribute_name)
+        return W[node_list, :][:, node_list]
 
     def cross_link_attribute(self, attribute_name, node_list1, node_list2):
         """
